@@ -1,6 +1,7 @@
 /* C05 harness: C binding of the disassembler (src/disassembler_c.cpp).  Only the buffer contract is within reach (DESIGN.md C05). */
 #include "dc_types.h"
 #include "common.h"
+#include "spec_touch.h"
 int verif_outcome;
 const char *ghost_text; u64 ghost_text_len; u64 ghost_j;
 #include "disasm_c_contracts.h"
